@@ -89,6 +89,9 @@ Fixpoint leaves (pv : val) : list val :=
   | _ => [pv]
   end.
 
+(* a dimension: an int32 that Variant.Decode accepts *)
+Definition dim_ok (d : Z) : bool := (1 <=? d) && (d <=? max_int32).
+
 (* everything of a non-null Variant except the well-formedness of the elements *)
 Definition variant_hdr_ok (m alen dl : Z) (dims : list Z) (p : val) : bool :=
   (m mod 64 <=? 25) &&
@@ -96,7 +99,7 @@ Definition variant_hdr_ok (m alen dl : Z) (dims : list Z) (p : val) : bool :=
    else
      (-1 <=? alen) && (alen <=? max_variant_array_length) &&
      (if bit m 6
-      then (dl =? zlen dims) && (dl <=? max_int32) && forallb (fun d => 1 <=? d) dims &&
+      then (dl =? zlen dims) && (dl <=? max_int32) && forallb dim_ok dims &&
            (if 0 <? dl then match dims_product dims 1 with Some c => c =? alen | None => false end else true)
       else (dl =? 0) && is_nil dims) &&
      (if dl <? 2
